@@ -22,8 +22,8 @@ RULE = (
     "p_b) and one brine (0..25 wt%, 6 pressures). Non-trivial = the gas ladder spans a factor "
     ">= 1.5 in density and Z deviates from 1 by > 1e-3 somewhere; distinct = descriptor hash."
 )
-MIN_NONTRIVIAL = {"quick": 100, "thorough": 2500}
-SHARDS = {"quick": 1, "thorough": 8}
+MIN_NONTRIVIAL = {"quick": 100, "thorough": 15000}
+SHARDS = {"quick": 1, "thorough": 16}
 GENERATOR = {"gas": "T_r [1.05,3], p_r (0.02,30], T_pc -120..10 F, p_pc 550..760, gravity 0.55..1.2", "oil": "C12 box", "water": "T 60..400 F, p 15..20000, salinity 0..25"}
 ASSUMPTIONS = [
     "gas constant 10.7316 psia ft3/(lbmol R) and M_air 28.9647 are physical constants known to the "
@@ -52,7 +52,7 @@ def setup(ck):
 
 def generate(ck):
     rng = ck.rng
-    n = 130 if ck.tier == "quick" else 3200
+    n = 130 if ck.tier == "quick" else 20000
     descs = []
     for i in range(n):
         Tr = [1.05, 3.0, 1.07, 1.3][i] if i < 4 else wl.f(rng.uniform(1.05, 3.0))
@@ -161,6 +161,17 @@ def run_case(ck, desc):
         if not ck.margin("rho_o*Bo=stock-tank+dissolved-gas (array call)", e, 1e-12):
             ck.violation("rho_o*Bo=stock-tank+dissolved-gas", {"array_dtype": label, "worst_rel": e, "p": arr.tolist(), "Rs_array": ra.tolist()}, desc)
         ck.count("oil_array_calls")
+    # the caller re-uses its pressure buffer: same array object, new contents, second call
+    buf = pa.copy()
+    oil.density_Standing(To, buf, api, gg, gor)
+    buf *= 0.6
+    buf += 7.0
+    d2 = np.asarray(oil.density_Standing(To, buf, api, gg, gor), dtype=float)
+    b2 = np.asarray(oil.b_o_Standing(To, buf, api, gg, gor), dtype=float)
+    w2 = 62.37 * og + 0.0136 * gg * np.array([float(oil.solution_gor_Standing(To, float(x), api, gg, gor)) for x in buf])
+    e = float(np.max(np.abs(d2 * b2 / w2 - 1)))
+    if not ck.margin("rho_o*Bo=stock-tank+dissolved-gas (buffer re-used in place)", e, 1e-12):
+        ck.violation("rho_o*Bo=stock-tank+dissolved-gas", {"buffer_reused_in_place": True, "worst_rel": e}, desc)
     wp = np.array(desc["water_p"])
     for arr in (wp, np.round(wp).astype("i8")):
         da = np.asarray(water.density_water_McCain(desc["water"][0], arr, desc["water"][1]), dtype=float)
